@@ -294,6 +294,9 @@ impl Network {
                 peer.peer_status
             );
         }
+        // the request below reads the configs and the blockchain, which come before the peers in
+        // the lock order : the peers lock has to be released first
+        drop(peers);
 
         self.io_interface
             .send_interface_event(InterfaceEvent::PeerConnected(peer_index));
